@@ -233,7 +233,18 @@ def writePart (cfg : Cfg Msg) (c : Conn Msg) (now : Nat) (sends : List SendRes) 
   if c.state = .disconnected then c
   else { c with pollMask := some (if c.wbuf = [] then 5 else 7) }
 
-/-- `__processConnection(descr, eventType)` (176-225) -/
+/-- `__processConnection(descr, eventType)` (176-225), as of the repair D53 (/repo 7627273).
+
+The handler remembers `sock = self.__socket` at entry and, after the time-out check, after `__trySendBuffer`,
+after `__tryReadBuffer` and after every delivered message, returns when `self.__socket is not sock`.
+In this model that test is written `state = .disconnected`, which is the same thing for every behaviour the
+model has: past the descriptor test `fileno` is not None, hence the socket is not None (both are set and
+cleared together by `__init__`/`connect`/`disconnect`), and the only operation that runs inside the handler
+and changes the socket or the state is `disconnect()` (directly, or from a callback: `cbDisc`, `onConnDisc`),
+which sets `__socket = None` and `state = DISCONNECTED` together.  A callback that *re-connects* from inside
+the handler (new socket, state CONNECTING — the situation D53 is about) is outside this component's event
+alphabet; it belongs to the transport component (C14).  The harness checks the two facts used here on the real
+object after every event (`fileno is None` iff DISCONNECTED; `fileno` set implies socket set). -/
 def poll (cfg : Cfg Msg) (c : Conn Msg) (e : PollEv) : Conn Msg :=
   if !e.descrOk || c.state = .disconnected then c
   else if e.er then disconnect c
@@ -242,8 +253,9 @@ def poll (cfg : Cfg Msg) (c : Conn Msg) (e : PollEv) : Conn Msg :=
     if c.state = .disconnected then c
     else if (e.rd || e.wr) && e.soErr then disconnect c
     else if (e.rd || e.wr) && c.state = .connecting then
-      if e.onConnDisc then disconnect c
-      else { c with state := .connected, lastRead := e.now }
+      -- D53: the state becomes CONNECTED and the clock is refreshed BEFORE onConnected() runs; no re-check after it
+      let c := { c with state := .connected, lastRead := e.now }
+      if e.onConnDisc then disconnect c else c
     else
       let c := if e.wr then writePart cfg c e.now e.sends else c
       if c.state = .disconnected then c
